@@ -13,33 +13,19 @@ Ltac Zify.zify_post_hook ::= Z.div_mod_to_equations.
 Definition n_b_c : bytes := [1;98;1;99;0].
 Definition n_a_c : bytes := [1;97;1;99;0].
 Definition n_x_a_b_c : bytes := [1;120;1;97;1;98;1;99;0].
-Definition n_x_a_c : bytes := [1;120;1;97;1;99;0].
 
-(* finding new_compressor_bad_pointer: b.c, a.c, x.a.b.c -- the third name is
-   written as `01 78` + pointer to a.c and reads back as x.a.c *)
-Lemma compressor_sound_refuted : cmp_checks_attach = false ->
-  exists names c w e, c19_build 0 names = Ok c /\ nth_error names 2 = Some n_x_a_b_c /\
-    new_split c 9 = Ok (w, e) /\ w = n_x_a_c /\ w <> n_x_a_b_c.
+(* regression vectors of the three repaired defects (fix: commits 78b30ee,
+   4f7eebf, 0ad71c9 in /repo): the inputs that used to give a wrong pointer, a
+   u16 overflow and unreachable!() now build messages that read back *)
+Example compressor_regressions :
+  (exists c, c19_build 0 [n_b_c; n_a_c; n_x_a_b_c] = Ok c /\ new_split c 9 = Ok (n_x_a_b_c, len c)) /\
+  (exists c, c19_build 16370 [[1;97;7;101;120;97;109;112;108;101;0]; [1;98;7;101;120;97;109;112;108;101;0]] = Ok c /\
+             new_split c 16381 = Ok ([1;98;7;101;120;97;109;112;108;101;0], len c)) /\
+  (exists c, c19_build 0 [[1;97;2;97;98;0]; [2;1;97;2;97;98;0]] = Ok c /\
+             new_split c 6 = Ok ([2;1;97;2;97;98;0], len c)).
 Proof.
-  intros H. exists [n_b_c; n_a_c; n_x_a_b_c].
-  first [ discriminate H
-        | do 3 eexists; split; [vm_compute; reflexivity|]; split; [reflexivity|];
-          split; [vm_compute; reflexivity|]; split; [reflexivity|discriminate] ].
+  split; [|split]; eexists; (split; [vm_compute; reflexivity|vm_compute; reflexivity]).
 Qed.
-
-(* finding new_compressor_pointer_overflow: an entry at contents offset 16370;
-   the second name points 2 octets into it: 16372 + 0xC00C = 0x10000 *)
-Lemma compressor_overflow_refuted : cn_range_check = false ->
-  c19_build 16370 [[1;97;7;101;120;97;109;112;108;101;0]; [1;98;7;101;120;97;109;112;108;101;0]]
-    = Panic PC_ADD_OVERFLOW.
-Proof. intros H. first [discriminate H | vm_compute; reflexivity]. Qed.
-
-(* finding new_compressor_label_boundary_panic: a.ab then \001a.ab: the octets
-   of the entry are a suffix of the octets of the name, but not on a label
-   boundary; the remainder `02` is not a label sequence *)
-Lemma compressor_label_boundary_refuted : cmp_aligns_suffix = false ->
-  c19_build 0 [[1;97;2;97;98;0]; [2;1;97;2;97;98;0]] = Panic PC_UNREACHABLE.
-Proof. intros H. first [discriminate H | vm_compute; reflexivity]. Qed.
 
 (* non-vacuity of the model: the crate's own test vectors (compressor.rs tests) *)
 Example compressor_examples :
